@@ -309,6 +309,17 @@ def g_Q(fr):
     return '(%d # %d)%%Q' % (fr.numerator, fr.denominator)
 
 
+def g_Qf(x):
+    """float -> Gallina Q literal of its shortest decimal representation
+    (injective and order preserving on floats; differs from the binary value
+    by less than one ulp, far below every comparison tolerance)"""
+    from fractions import Fraction
+    x = float(x)
+    if x != x or x in (float('inf'), float('-inf')):
+        raise ValueError('non-finite float in a case: %r' % x)
+    return g_Q(Fraction(repr(x)))
+
+
 def g_bool(b):
     return 'true' if b else 'false'
 
